@@ -243,7 +243,7 @@ pub fn run_d(seed: u64, ntraces: usize, only: Option<u64>) {
                 let e = vec![(tok.clone(), 0u64, bn(200))];
                 g.its_tx("transfer", &u, "interchainTransfer", vec![tid.clone(), b"ethereum".to_vec(), b"0xdead".to_vec(), vec![], vec![]], 0, &e,
                     json!({"token_id": hx(&tid), "dchain": hx(b"ethereum"), "daddr": hx(b"0xdead"), "metadata": "", "gas": "0"}));
-                if d == 1 { script.extend([190u64, 191, 192, 190]); }
+                if d == 1 { script.extend([190u64, 191, 192, 190, 90, 91, 92]); }
                 else if d == 6 {
                     // a metadata registration is in flight when the owner pauses: its (successful) lookup callback still forwards the gas
                     let u1 = g.users[1].clone();
@@ -378,6 +378,12 @@ pub fn run_d(seed: u64, ntraces: usize, only: Option<u64>) {
                 g.its_tx("setTrusted", &ow, "setTrustedAddress", vec![b"axelar".to_vec(), b"hub".to_vec()], 0, &[], json!({"chain": hx(b"axelar"), "a": hx(b"hub")})); continue; }
             if a == 76 { // the account that accepted the service's operatorship hands it back to the proposer
                 if let Some((from, to)) = g.proposed.clone() { let (ok, _, _) = g.its_tx("transferOp", &to, "transferOperatorship", vec![from.to_vec()], 0, &[], json!({"a": hx(from.as_bytes())})); if ok { g.operator = from; } }
+                continue; }
+            if a == 90 || a == 91 || a == 92 { // the service's OPERATOR (not the owner) calls the owner-only endpoints with well-formed arguments: set a trusted address (90), remove one (91), pause (92): all refused
+                let opr = g.operator.clone();
+                if a == 90 { g.its_tx("setTrusted", &opr, "setTrustedAddress", vec![b"avalanche".to_vec(), b"0xByOperator".to_vec()], 0, &[], json!({"chain": hx(b"avalanche"), "a": hx(b"0xByOperator")})); }
+                else if a == 91 { g.its_tx("removeTrusted", &opr, "removeTrustedAddress", vec![b"ethereum".to_vec()], 0, &[], json!({"chain": hx(b"ethereum")})); }
+                else { let p = !g.paused; let (ok, _, _) = g.its_tx("pause", &opr, if p { "pause" } else { "unpause" }, vec![], 0, &[], json!({"paused": p})); if ok { g.paused = p; } }
                 continue; }
             if a == 85 { // an approved transfer of amount ZERO naming a token id nobody registered: refused like any unknown id, the approval stays
                 g.msg += 1; let id = format!("msg-{}", g.msg).into_bytes(); let tidz = r.bytes(32);
